@@ -157,8 +157,8 @@ Proof.
     { unfold Package.check_rdf.
       pose proof (d_tree_sem xml bytes kid par fs MANIFEST _ W2 is_xml_MANIFEST) as [_ [_ [_ [_ [U5 _]]]]].
       destruct (d_tree xml bytes kid par FIXED fs MANIFEST _) as [dm [xm|]]; cbn [fst] in *; [|congruence].
-      destruct (match m_get RDF (entries xm) with Some m => negb (m =? EMPTYMT) | None => false end);
-        destruct (memz RDF (c_listing bytes kid fs (cont _ _ dm))); cbn [fst cont d_with_cont c_set_part c_del_part c_with_parts cpath]; congruence. }
+      destruct (rdf_listed FIXED (entries xm));
+        destruct (memz RDF (c_listing bytes kid FIXED fs (cont _ _ dm))); cbn [fst cont d_with_cont c_set_part c_del_part c_with_parts cpath]; congruence. }
     destruct (check_rdf xml bytes kid par entries rdf0 FIXED fs _) as [d3 ok3]. cbn [fst] in *.
     destruct ok3; cbn [negb]; [|cbn [fst snd]; exact P3].
     assert (P4 : forall pty0, cpath _ (cont _ _ (fst (if pty0 && negb (pk_eqb pk PXml)
